@@ -517,3 +517,56 @@ def rule_cover_quantile(ctx, m):
                     ctx.note('%s[%s%s]: with cover_quantile=(q, target) the derived %s does not make %s equal `target` at the q-quantile (target + (%s)); '
                              'outside the statement of C19' % (fname, name, ' base' if based else '', '/'.join(sorted(solved)), fmt(e), r))
     ctx.count('cover_quantile derivations examined (informational)', n)
+
+
+def rule_default_scale(ctx, m):
+    """The range / monotonicity verdicts of rule_similarity assume a data-derived default scale r with r >= max(D) (reverse) resp. r > 0
+    (exponential, gaussian).  Here the default expressions themselves are checked, as linear terms over MIN = min(D) >= 0 and MAX = max(D) >= MIN."""
+    from .. import sym
+    pm = m.py('dtaidistance.similarity')
+    f = pm.funcs.get('distance_to_similarity')
+    if f is None:
+        raise AnalysisError('anchor vanished: similarity.distance_to_similarity')
+    V, C = sym.var, sym.const
+    dom = [V('MIN'), sym.sub(V('MAX'), V('MIN')), sym.sub(V('MAX'), C(1))]
+    n = 0
+    for name, body in sorted(_chain(f, 'method').items()):
+        defaults = []
+        for s_ in walk_stmts(body):
+            if s_.k == 'if' and fmt(s_.cond).replace('(', '').replace(')', '') == 'r is None':
+                # the branch without cover_quantile (directly, or the `cover_quantile is False` arm)
+                for t in s_.then:
+                    if t.k == 'assign' and t.target == ('var', 'r'):
+                        defaults.append(t)
+                    if t.k == 'if' and fmt(t.cond).replace('(', '').replace(')', '') == 'cover_quantile is False':
+                        defaults += [u for u in t.then if u.k == 'assign' and u.target == ('var', 'r')]
+        for d in defaults:
+            def atom(x):
+                if x[0] == 'call' and len(x[2]) == 1 and x[2][0] == ('var', 'D'):
+                    return {'max': 'MAX', 'amax': 'MAX', 'min': 'MIN', 'amin': 'MIN'}.get((dotted(x[1]) or '').split('.')[-1])
+                return None
+            try:
+                t = sym.from_ir(d.value, atom=atom)
+            except Exception:  # noqa
+                t = None
+            n += 1
+            inst = 'distance_to_similarity[%s] default r = %s' % (name, fmt(d.value))
+            if t is None or not (sym.atoms(t) <= {'MIN', 'MAX'}):
+                ctx.undecided('R-MON', inst, 'default scale is not a linear expression of min(D), max(D)')
+                continue
+            need = sym.sub(t, V('MAX')) if name == 'reverse' else sym.sub(t, C(1))
+            r = sym.equivalent(sym.tmin(need, C(0)), C(0), dom, box={'MIN': range(0, 5), 'MAX': range(1, 6)})
+            if r[0] == 'equal':
+                ctx.held('R-MON', inst, 'r >= max(D)' if name == 'reverse' else 'r > 0')
+            elif r[0] == 'differ':
+                w = dict(r[1])
+                w.setdefault('MIN', 0)
+                w.setdefault('MAX', max(1, w['MIN']))
+                ctx.violation('R-MON', pm.path, 'distance_to_similarity', 'default scale %s' % name,
+                              'the default scale of the %s transform is r = %s; for distances with min %s and max %s it is %s, %s' %
+                              (name, fmt(d.value), w.get('MIN'), w.get('MAX'), sym.evaluate(t, w),
+                               'smaller than the largest distance: (r - D) / r becomes negative, outside [0, 1]' if name == 'reverse' else 'not positive: the transform is no longer non-increasing in the distance'),
+                              d.line, facts={'witness': w})
+            else:
+                ctx.undecided('R-MON', inst, r[1])
+    ctx.count('default scales checked', n)
